@@ -272,6 +272,9 @@ pub struct State<Q: QueueApi> {
     /// tokens deliberately leaked by the client (leaked drain)
     pub expected_leaks: i64,
     pub used_drain_or_clear: bool,
+    /// a table inconsistency has already been reported for this queue: keep observing the
+    /// consequences for contents and return values, without re-judging tables and order
+    pub tables_broken: bool,
 }
 
 fn ord_of_kind(k: Kind) -> &'static str {
@@ -417,7 +420,7 @@ impl<Q: QueueApi> State<Q> {
                 return Err(mon.cap(format!("capacity {} < requested {}", q.capacity(), n)));
             }
         }
-        Ok(State { q, m, order_suspended: false, expected_leaks: 0, used_drain_or_clear: false })
+        Ok(State { q, m, order_suspended: false, expected_leaks: 0, used_drain_or_clear: false, tables_broken: false })
     }
 
     /// Execute one operation on the real queue and on the model; check every return value.
@@ -1298,7 +1301,15 @@ impl<Q: QueueApi> State<Q> {
         let mon = &mon;
         // M-TABLES
         let s = self.q.snapshot();
-        s.tables().map_err(|d| mon.tables(d))?;
+        let tables_ok = match s.tables() {
+            Ok(()) => true,
+            Err(d) => {
+                if !self.tables_broken {
+                    return Err(mon.tables(d));
+                }
+                false
+            }
+        };
         // len / is_empty
         if self.q.len() != self.m.len() {
             return Err(mon.content(format!("len() = {} expected {}", self.q.len(), self.m.len())));
@@ -1307,7 +1318,7 @@ impl<Q: QueueApi> State<Q> {
             return Err(mon.content(format!("is_empty() = {} with {} elements", self.q.is_empty(), self.m.len())));
         }
         // M-ORDER
-        if !self.order_suspended {
+        if !self.order_suspended && tables_ok {
             match Q::KIND {
                 Kind::Pq => s.order_max(),
                 Kind::Dpq => s.order_minmax(),
